@@ -88,6 +88,8 @@ type c13Net struct {
 
 	// store tap (every node's base store): called before and after the delegated Put
 	onPut func(n *c13Node, after bool, b *common.Beacon, err error)
+	// store fault injector: a non-nil error is returned from the base store's Put instead of delegating
+	failPut func(n *c13Node, b *common.Beacon) error
 	// wire tap: every outgoing unary protocol/DKG call of every node, after it returned
 	onCall func(from *c13Node, method, target string, req any, start time.Time, err error)
 
@@ -97,6 +99,11 @@ type c13Net struct {
 
 	onStopHang func(n *c13Node, dump string)
 	restarting atomic.Pointer[c13Node]
+
+	// moments at which the 20 ms pacer found itself more than 150 ms late: this process was starved of CPU then,
+	// and so were the daemons' own goroutines (used to keep timing-sensitive evidence out of verdicts)
+	lagMu    sync.Mutex
+	lagTimes []time.Time
 
 	// stream fault injector: consulted for every outgoing client stream (SyncChain, ...) of every node
 	onStream func(from *c13Node, method, target string) *c13StreamFault
@@ -181,7 +188,13 @@ func (s *c13StoreTap) Put(ctx context.Context, b *common.Beacon) error {
 	if f != nil {
 		f(n, false, b, nil)
 	}
-	err := s.Store.Put(ctx, b)
+	var err error
+	if fp := s.nt.failPut; fp != nil && n != nil {
+		err = fp(n, b)
+	}
+	if err == nil {
+		err = s.Store.Put(ctx, b)
+	}
 	if f != nil {
 		f(n, true, b, err)
 	}
@@ -452,11 +465,19 @@ func (nt *c13Net) startPacer() {
 		defer close(nt.pacerDone)
 		tk := time.NewTicker(20 * time.Millisecond)
 		defer tk.Stop()
+		last := time.Now()
 		for {
 			select {
 			case <-nt.pacerStop:
 				return
 			case <-tk.C:
+				now := time.Now()
+				if now.Sub(last) > 150*time.Millisecond {
+					nt.lagMu.Lock()
+					nt.lagTimes = append(nt.lagTimes, now)
+					nt.lagMu.Unlock()
+				}
+				last = now
 				nt.syncClocks()
 			}
 		}
@@ -469,6 +490,18 @@ func (nt *c13Net) stopPacer() {
 		<-nt.pacerDone
 		nt.pacerStop = nil
 	}
+}
+
+// starvedBetween reports whether the pacer was found late at some moment in [a-1s, b+1s].
+func (nt *c13Net) starvedBetween(a, b time.Time) bool {
+	nt.lagMu.Lock()
+	defer nt.lagMu.Unlock()
+	for _, t := range nt.lagTimes {
+		if t.After(a.Add(-time.Second)) && t.Before(b.Add(time.Second)) {
+			return true
+		}
+	}
+	return false
 }
 
 // clockRound is the round of the (common) fake clock for the current group.
@@ -634,6 +667,11 @@ type c13Reshare struct {
 	// the DKG layer completes the epoch but the beacon processes are expected to refuse its output
 	// (validateGroupTransition): do not wait for a new group in core
 	coreRefuses bool
+	// members of the proposal that are expected to miss the execution (their completion is not waited for)
+	absent []*c13Node
+	// script hooks: after the joiners issued Join (before Execute); right after the leader's Execute command
+	afterJoin    func()
+	afterExecute func()
 }
 
 func c13GroupTOML(g *key.Group) ([]byte, error) {
@@ -693,6 +731,9 @@ func (nt *c13Net) runReshare(rs c13Reshare) (*key.Group, error) {
 			return nil, fmt.Errorf("join node %d: %w", j.idx, err)
 		}
 	}
+	if rs.afterJoin != nil {
+		rs.afterJoin()
+	}
 	if rs.neverExecute {
 		// wait until the proposal's own timeout has passed (real time: the DKG state machine uses time.Now())
 		time.Sleep(rs.timeout + 1500*time.Millisecond)
@@ -705,8 +746,22 @@ func (nt *c13Net) runReshare(rs c13Reshare) (*key.Group, error) {
 	if err := nt.cmd(leader, &pdkg.DKGCommand{Command: &pdkg.DKGCommand_Execute{Execute: &pdkg.ExecutionOptions{}}}); err != nil {
 		return nil, fmt.Errorf("execute: %w", err)
 	}
-	members := append(append([]*c13Node(nil), rs.remaining...), rs.joining...)
-	err = nt.waitEpoch(members, epoch, 90*time.Second)
+	if rs.afterExecute != nil {
+		rs.afterExecute()
+	}
+	var members []*c13Node
+	for _, n := range append(append([]*c13Node(nil), rs.remaining...), rs.joining...) {
+		gone := false
+		for _, a := range rs.absent {
+			if a == n {
+				gone = true
+			}
+		}
+		if !gone {
+			members = append(members, n)
+		}
+	}
+	err = nt.waitEpoch(members, epoch, 120*time.Second)
 	if rs.dropDKGTraffic {
 		if err == nil {
 			return nil, errors.New("reshare completed although all DKG traffic was dropped")
